@@ -140,6 +140,24 @@ CLAIMED = {
         technique="TLA+ spec + TLC exhaustive configuration enumeration, replay with the real classes",
         ref="5/C09",
     ),
+    "C23": dict(
+        level="exploration",
+        text="Scheme.tla (the table of residual blocks every solver enforces at every returned point) is extended by the static solvers: Newton "
+             "{equilibrium, g, c, quat, signorini, frame}, Riks {equilibrium, g, c, quat, frame}; TLC checks the table (a returned point of a static "
+             "solver is an equilibrium of the whole model) and judges every record. Static problems are solved with the real Newton and Riks "
+             "solvers: cantilever rods of all formulations (Quaternion / SE3 / R12, displacement-based / mixed / internally constrained) clamped "
+             "by a RigidConnection and loaded by tip forces and follower moments that grow with the load parameter, a bar on a revolute joint with "
+             "a spring (both forms), a point mass resting on a plane (static Signorini); every returned load step / arc-length point gives one "
+             "record with the residual blocks evaluated from the returned Solution by the System's own routines; every rod problem is solved a "
+             "second time after a random rigid motion of the whole problem (reference, clamp, dead loads) and the equilibria are compared "
+             "(block frame).",
+        note="Exploration: the residual thresholds are float comparisons in the harness (ok below 1e-6 relative to the load scale with solver "
+             "tolerance 1e-8, violated above 1e-4, not judged in between); the model decides which blocks a returned point must satisfy. Runs that "
+             "raise or stop early are judged under C21 (they must say so); the rows they return are judged here. Loads are small enough for a "
+             "unique equilibrium branch. The frame block is evaluated for Newton (same load steps in both frames).",
+        technique="TLA+ table of enforced residual blocks model-checked by TLC + TLC trace validation of every load step returned by the real static solvers",
+        ref="5/C23",
+    ),
     "C24": dict(
         level="fault_enumeration",
         text="Restart.tla: (mechanism) a joint between two moving links captures body-fixed data at assembly; actions Advance/DeepCopy/Restart/PostProcess "
@@ -424,7 +442,6 @@ CLAIMED = {
 NOT_APPLICABLE = {
     "C03": "derivatives of transcendental SO(3)/SE(3) maps down to 1e-9 angles: real analysis / high-precision arithmetic, no state, no rational core for TLC (32-bit integers, no reals)",
     "C19": "convergence order, secular energy drift and reversibility up to tolerance are asymptotic real-valued trajectory properties; the rational fragment does not exercise constraints or stage 2",
-    "C23": "equilibrium residuals and frame-indifference of static rod problems are real-valued; the load-step protocol is covered by the statics instances under C21",
 }
 
 NOT_BUILT = "in family (see DESIGN.md section 5) but its check is not built yet"
